@@ -69,6 +69,13 @@ def _match(p, t, binding, vcache):
             return _match(a, z3.simplify(t - b), binding, vcache)
         if z3.is_var(b) and not _has_var(a, vcache):
             return _match(b, z3.simplify(t - a), binding, vcache)
+    # n-ary sum with exactly one bound variable and ground other summands:  k := t - (the rest)
+    if z3.is_add(p) and p.num_args() > 2 and z3.is_int(p):
+        ch = p.children()
+        vs = [c for c in ch if z3.is_var(c)]
+        rest = [c for c in ch if not z3.is_var(c)]
+        if len(vs) == 1 and all(not _has_var(c, vcache) for c in rest):
+            return _match(vs[0], z3.simplify(t - z3.Sum(rest)), binding, vcache)
     if p.decl().kind() != t.decl().kind() or p.num_args() != t.num_args():
         return False
     if p.decl().kind() == z3.Z3_OP_UNINTERPRETED and p.decl().name() != t.decl().name():
@@ -142,8 +149,8 @@ class Instantiator:
             if z3.is_app(x):
                 if x.decl().kind() == z3.Z3_OP_SELECT and not _has_var(x.arg(0), self.vcache) and _has_var(x.arg(1), self.vcache):
                     idx = x.arg(1)
-                    ok = z3.is_var(idx) or (z3.is_add(idx) and idx.num_args() == 2 and
-                                            (z3.is_var(idx.arg(0)) or z3.is_var(idx.arg(1))))
+                    ok = z3.is_var(idx) or (z3.is_add(idx) and sum(1 for c in idx.children() if z3.is_var(c)) == 1 and
+                                            all(z3.is_var(c) or not _has_var(c, self.vcache) for c in idx.children()))
                     if ok:
                         pats.append([x])
                 stack.extend(x.children())
